@@ -99,6 +99,14 @@ func (xmlNode *unmarshaledXML) unserializedChildren(path []string, sn schema.Nod
 	fields := make(map[string]*unmarshaledXML)
 	list := make([]unserialized, 0)
 
+	if _, isList := sn.(schema.List); isList {
+		// The children gathered below a list are its entries
+		for _, c := range xmlNode.Children {
+			list = append(list, c)
+		}
+		return list, nil
+	}
+
 	for _, c := range xmlNode.Children {
 		name := c.name()
 		cn := sn.Child(name)
@@ -120,11 +128,13 @@ func (xmlNode *unmarshaledXML) unserializedChildren(path []string, sn schema.Nod
 			v.Children = append(v.Children, c)
 		case schema.List:
 			// We may validly have multiple list elements with the same
-			// name so no need to check ok.  For each element we create a
-			// List entry in <list>, with a single child for the listEntry.
-			v = &unmarshaledXML{c.XMLName, c.XMLAttr, "", make([]*unmarshaledXML, 0)}
-			fields[name] = v
-			list = append(list, v)
+			// name.  They are the entries of one List node, in document
+			// order.
+			if !ok {
+				v = &unmarshaledXML{c.XMLName, c.XMLAttr, "", make([]*unmarshaledXML, 0)}
+				fields[name] = v
+				list = append(list, v)
+			}
 			v.Children = append(v.Children, c)
 		case schema.Leaf:
 			if ok {
